@@ -41,23 +41,23 @@ def zipOuts : List Bytes → List Out → Option (List (Bytes × Out))
   | _, _ => none
 
 def handle : List String → String
-  | ["run", arch, jour, getsize, jopen, jwrites, jclose, junlink, aopen, adata, aouts, srcFail,
+  | ["run", arch, jour, getsize, jopen, jwrite, jretry, jclose, junlink, aopen, adata, aouts, srcFail,
       aclose, ropen, rtrunc, rclose, unlink] =>
-    match decOptBytes? arch, decOptBytes? jour, decOut? getsize, decOut? jopen, decOuts? jwrites,
-          decOut? jclose, decOut? junlink, decOut? aopen with
-    | some arch, some jour, some getsize, some jopen, some jwrites, some jclose, some junlink, some aopen =>
+    match decOptBytes? arch, decOptBytes? jour, decOut? getsize, decOut? jopen, decOut? jwrite,
+          decOut? jretry, decOut? jclose, decOut? junlink, decOut? aopen with
+    | some arch, some jour, some getsize, some jopen, some jwrite, some jretry, some jclose, some junlink, some aopen =>
       match decLists? adata, decOuts? aouts, decOut? aclose, decOut? ropen, decOut? rtrunc,
             decOut? rclose, decOut? unlink with
       | some adata, some aouts, some aclose, some ropen, some rtrunc, some rclose, some unlink =>
         match zipOuts adata aouts with
         | some aw =>
-          let s : Sched := { getsize, jopen, jwrites, jclose, junlink, aopen, awrites := aw,
+          let s : Sched := { getsize, jopen, jwrite, jretry, jclose, junlink, aopen, awrites := aw,
                              srcFail := srcFail == "T", aclose, ropen, rtrunc, rclose, unlink }
           let r := writeRecord ⟨arch, jour⟩ s
           encStatus r.status ++ " " ++ encTrace r.tr ++ " " ++ encOpt r.fs.archive ++ " " ++ encOpt r.fs.journal
         | none => "bad-arg"
       | _, _, _, _, _, _, _ => "bad-arg"
-    | _, _, _, _, _, _, _, _ => "bad-arg"
+    | _, _, _, _, _, _, _, _, _ => "bad-arg"
   | ["startup", pre, listing] =>
     match decList? pre, decLists? listing with
     | some pre, some listing => encBool (startupRefuses pre listing)
